@@ -1,4 +1,5 @@
 //! Reference models. Every oracle is tri-state (DESIGN §2.4).
+pub mod netspec;
 pub mod pattern;
 
 #[derive(Clone, Copy, Debug, PartialEq, Eq)]
